@@ -644,6 +644,11 @@ fn judge_inner(sc: &Scenario, out: &RunOut, reference: &Reference, root: &Path, 
     let code_rel = rel_of(root, &code_abs);
     let eep_rel = rel_of(root, &eep_abs);
     let f = facts(sc, out, root, &code_abs, &eep_abs);
+    if sc.source_class == "shadowed-part-file" && (f.hard_input || sc.read_cap > 0 || out.trace.iter().any(|e| e.rule >= 0 && !e.path.starts_with('<') && !e.path.ends_with(".hex") && !e.path.contains("eep"))) {
+        // two files qualify for the include: a fault on one candidate legitimately leads the
+        // tool to the other one, which the fault-free reference did not use - not judged
+        return None;
+    }
     let opts = format!("{}{}{}", if parsed.output.is_some() { "o" } else { "" }, if parsed.eeprom.is_some() { "e" } else { "" }, if parsed.verbose { "v" } else { "" });
     let fault_sig = if f.budget_hit {
         "budget"
@@ -840,7 +845,7 @@ pub fn scenario_shape(tier: &str, base_seed: u64, g: u64) -> Scenario {
             }
         }
     };
-    let classes = ["code", "code", "code+eeprom", "code+eeprom", "eeprom-only", "empty", "comments", "fail", "fail", "missing", "part-file", "part-file", "local-include", "large", "large", "gen-any", "not-utf8", "source-is-directory", "no-source-option", "unknown-option"];
+    let classes = ["code", "code", "code+eeprom", "code+eeprom", "eeprom-only", "empty", "comments", "fail", "fail", "missing", "part-file", "part-file", "shadowed-part-file", "local-include", "large", "large", "gen-any", "not-utf8", "source-is-directory", "no-source-option", "unknown-option"];
     let mut class = classes[r.usize(classes.len())].to_string();
     if tier == "thorough" && r.chance(1, 60) {
         class = "huge".into();
@@ -861,6 +866,19 @@ pub fn scenario_shape(tier: &str, base_seed: u64, g: u64) -> Scenario {
         "part-file" => {
             let p = PARTS[r.usize(PARTS.len())];
             Some(format!(".include \"{}\"\n    ldi r16, low(RAMEND)\n    out SPL, r16\n.eseg\n.db 7\n", p))
+        }
+        // a file of the same name as a shipped part file next to the source (or in the cwd): which
+        // one wins is the library's business - the tool must build what the library builds when
+        // it is given the very same arguments
+        "shadowed-part-file" => {
+            let p = PARTS[r.usize(PARTS.len())];
+            let place = match r.below(3) {
+                0 => if srcdir.is_empty() { String::new() } else { format!("{}/", srcdir) },
+                1 => if cwd.is_empty() { String::new() } else { format!("{}/", cwd) },
+                _ => if srcdir.is_empty() { String::new() } else { format!("{}/", srcdir) },
+            };
+            sc.files.insert(format!("{}{}", place, p), format!(".equ RAMEND = {}\n.equ SPL = 0x3d\n.device ATmega8\n", 0x100 + r.below(0x300)));
+            Some(format!(".include \"{}\"\n    ldi r16, low(RAMEND)\n    ldi r17, high(RAMEND)\n    out SPL, r16\n.eseg\n.dw RAMEND\n", p))
         }
         "local-include" => {
             let inc = format!("{}defs.inc", if srcdir.is_empty() { "".to_string() } else { format!("{}/", srcdir) });
@@ -1201,6 +1219,7 @@ fn account(acc: &mut Acc, sc: &Scenario, out: &RunOut, reference: &Reference, ro
     stats.probe("stdout_fault_while_reporting_a_failure", !built && (sc.stdout != "pipe" || fired.iter().any(|e| e.path.starts_with('<'))));
     stats.probe("empty_flash_image_with_eeprom_data", built && clen == 0 && elen > 0);
     stats.probe("empty_source", built && clen == 0 && elen == 0);
+    stats.probe("local_file_shadows_a_shipped_part_file", sc.source_class == "shadowed-part-file" && built);
     stats.probe("source_missing", sc.source_class == "missing");
     stats.probe("source_not_utf8_rejected", sc.source_class == "not-utf8" && !built);
     stats.probe("source_is_a_directory", sc.source_class == "source-is-directory");
@@ -1219,7 +1238,8 @@ fn account(acc: &mut Acc, sc: &Scenario, out: &RunOut, reference: &Reference, ro
         let n = first.min(a.len()).min(b.len());
         if sc.read_cap == 0 && sc.write_cap == 0 && sc.fsize_limit.is_none() && sc.stdout == "pipe" {
             if a[..n] != b[..n] {
-                stats.harness_errors.push(format!("determinism: faulted trace diverges from its profile before the first fault (g={})", g));
+                let at = (0..n).find(|i| a[*i] != b[*i]).unwrap_or(0);
+                stats.harness_errors.push(format!("determinism: faulted trace diverges from its profile before the first fault (g={}): event {}: profile [{}] faulted [{}] rules {:?}", g, at, a[at], b[at], sc.rules.iter().map(|r| r.short()).collect::<Vec<_>>()));
             }
             stats.count("profile_prefix_checks", 1);
         }
@@ -1250,6 +1270,12 @@ pub fn worker(cfg: &WorkerCfg, emit: &mut dyn FnMut(Violation)) -> Stats {
         if cfg.digest_only.is_none() && now_secs() - start > cfg.deadline_secs {
             acc.stats.count("stopped_by_deadline", 1);
             break;
+        }
+        if let Some(only) = std::env::var("VERIF_ONLY_G").ok().and_then(|x| x.parse::<u64>().ok()) {
+            if g != only {
+                g += cfg.nworkers;
+                continue;
+            }
         }
         let seed = mix(cfg.base_seed, &[0xC18, g]);
         let mut r = Rng::new(seed ^ 0xFA17);
@@ -1305,7 +1331,9 @@ pub fn worker(cfg: &WorkerCfg, emit: &mut dyn FnMut(Violation)) -> Stats {
                     for i in &evs {
                         for rules in faults_for_event(&prof.trace, *i) {
                             let mut f = sc.clone();
-                            f.rules = rules;
+                            // the permanent rules of the scenario (a simulated full device) stay
+                            f.rules.retain(|r| r.kind == "full-device");
+                            f.rules.extend(rules);
                             f.config = "enum-all".into();
                             match execute(&env, &f, budget) {
                                 Ok(o) => account(&mut acc, &f, &o, &reference, &env.root, seed, g, Some(&prof.trace)),
